@@ -1213,6 +1213,6 @@ pub fn check() -> Check {
     )
     .assume("epoch changes are observed (event + consensus manager state), not predicted: the epoch-change condition itself is not part of the property")
     .assume("validator fee factors and the owner-unit lock / unlock delays are modelled only as far as the vault movements go; the fee change delay is not asserted")
-    .part(Part::new("history", 1_200, 30_000, 1600, run))
+    .part(Part::new("history", 1_600, 40_000, 1600, run))
     .min_nontrivial_pct(3.0)
 }
